@@ -26,6 +26,9 @@ mod c07;
 #[cfg(kani)]
 mod c08;
 #[cfg(kani)]
+mod c15;
+pub mod ledger_version;
+#[cfg(kani)]
 mod c17;
 #[cfg(kani)]
 pub mod sgen;
